@@ -231,6 +231,31 @@ pub fn real(args: &[String]) {
         std::fs::write(r.join("sub").join(".m.y.swp"), b"x").unwrap();
         std::fs::write(r.join("sub").join("m.y"), b"v3").unwrap();
     }, &["file:sub.m:y"]);
+    // in-place writes (no truncation, no creation: one single-path notification each) to an entry without an id
+    // two directories down, then to an asset: nothing of the first path may stick to the second
+    std::fs::create_dir_all(r.join("deep").join("logs")).unwrap();
+    std::fs::write(r.join("deep").join("logs").join("run.1.log"), b"l0").unwrap();
+    std::fs::write(r.join("deep").join("logs").join("a.x"), b"v1").unwrap();
+    std::fs::write(r.join("top.x"), b"v1").unwrap();
+    std::thread::sleep(std::time::Duration::from_millis(300));
+    let inplace = |p: std::path::PathBuf, data: &[u8]| {
+        use std::io::Write;
+        let mut f = std::fs::OpenOptions::new().write(true).open(p).unwrap();
+        f.write_all(data).unwrap();
+    };
+    for round in 0..3 {
+        let r2 = r.clone();
+        step("in-place write to an entry without an id, then to a nested asset", &|| {
+            inplace(r2.join("deep").join("logs").join("run.1.log"), format!("l{round}").as_bytes());
+            std::thread::sleep(std::time::Duration::from_millis(60));
+            inplace(r2.join("deep").join("logs").join("a.x"), format!("v{round}").as_bytes());
+        }, &["file:deep.logs.a:x"]);
+        step("in-place write to an entry without an id, then to a top-level asset", &|| {
+            inplace(r2.join("deep").join("logs").join("run.1.log"), format!("m{round}").as_bytes());
+            std::thread::sleep(std::time::Duration::from_millis(60));
+            inplace(r2.join("top.x"), format!("v{round}").as_bytes());
+        }, &["file:top:x"]);
+    }
     step("nested file deletion", &|| std::fs::remove_file(r.join("sub").join("m.y")).unwrap(), &["file:sub.m:y", "dir:sub"]);
     step("top-level file deletion", &|| std::fs::remove_file(r.join("new.x")).unwrap(), &["file:new:x", "dir:"]);
     step("move in from outside", &|| {
@@ -268,5 +293,55 @@ pub fn real(args: &[String]) {
         }
     }
     let _ = std::fs::remove_dir_all(&root);
+    rep.print();
+}
+
+/// `amv watchseq-replay <cases.ndjson> <workdir>`: histories of WatcherSeq.tla through ONE real event
+/// handler (its id builder lives across notifications).
+#[cfg(am_hooks)]
+pub fn seq_replay(args: &[String]) {
+    let cases = crate::read_cases(&args[0]);
+    let root = std::path::PathBuf::from(format!("{}/watchseq-{}", args[1], std::process::id()));
+    std::fs::create_dir_all(&root).unwrap();
+    let root = root.canonicalize().unwrap();
+    let mut rep = Report::default();
+    for hist in cases.iter() {
+        rep.cases += 1;
+        let (tx, rx) = w::test_channel();
+        let mut handler = w::TestHandler::new(vec![root.clone()], tx);
+        for (i, step) in hist.as_array().unwrap().iter().enumerate() {
+            rep.checks += 1;
+            let comps: Vec<&str> = step["path"].as_array().unwrap().iter().map(|c| c.as_str().unwrap()).collect();
+            let mut p = root.clone();
+            for (j, c) in comps.iter().enumerate() {
+                let last = j + 1 == comps.len();
+                match *c {
+                    "<..>" => p.push(".."),
+                    "<.>" => p.push("."),
+                    name if last => p.push(format!("{name}.x")),
+                    name => p.push(name),
+                }
+            }
+            let ev = notify::Event { kind: event_kind("modify", false), paths: vec![p.clone()], attrs: Default::default() };
+            handler.handle(ev);
+            let got: Vec<String> = rx.drain().into_iter().flatten().map(|x| ent_json(&x)).collect();
+            let want: Vec<String> = match step["want"].get("id") {
+                Some(id) => vec![format!("file:{}:x", id.as_array().unwrap().iter().map(|s| s.as_str().unwrap()).collect::<Vec<_>>().join("."))],
+                None => vec![],
+            };
+            if got != want {
+                rep.mismatch(json!({"what":"the entry named for a notification depends on the notifications handled before it (or is not the id of the path)",
+                    "step":i,"path":p.display().to_string(),"got":got,"want":want,"history":hist}));
+                break;
+            }
+        }
+    }
+    let _ = std::fs::remove_dir_all(&root);
+    rep.print();
+}
+#[cfg(not(am_hooks))]
+pub fn seq_replay(_args: &[String]) {
+    let mut rep = Report::default();
+    rep.notes.push("hooks absent".into());
     rep.print();
 }
